@@ -4,8 +4,10 @@ import (
 	"encoding/json"
 	"fmt"
 	"os"
+	"os/exec"
 	"path/filepath"
 	"sort"
+	"strings"
 	"time"
 )
 
@@ -251,6 +253,13 @@ func report(a RunArgs, eng Engine, engName string, info Info, results []*Result,
 			}
 			cov["feature_cells"] = fc
 		}
+		if cd := os.Getenv("VERIF_COVERDIR"); cd != "" {
+			pct, uncovered := coverageOf(cd)
+			if len(pct) > 0 {
+				cov["coverage_pct"] = pct
+				cov["uncovered_funcs"] = uncovered
+			}
+		}
 		ev := map[string]any{
 			"property_id": a.Prop,
 			"tier":        a.Tier,
@@ -300,4 +309,42 @@ func firstLines(s string, n int) string {
 		}
 	}
 	return s
+}
+
+// coverageOf summarises the Go coverage counters written by the workers (thorough tier, -cover build):
+// statement coverage per library package, and the library functions never entered by this run.
+func coverageOf(dir string) (map[string]float64, []string) {
+	pct := map[string]float64{}
+	out, err := exec.Command("go", "tool", "covdata", "percent", "-i="+dir).Output()
+	if err != nil {
+		return nil, nil
+	}
+	for _, ln := range strings.Split(string(out), "\n") {
+		fs := strings.Fields(ln)
+		if len(fs) >= 3 && strings.HasPrefix(fs[0], "github.com/go-openapi/analysis") {
+			for i, f := range fs {
+				if f == "coverage:" && i+1 < len(fs) {
+					var v float64
+					fmt.Sscanf(strings.TrimSuffix(fs[i+1], "%"), "%f", &v)
+					pct[fs[0]] = v
+				}
+			}
+		}
+	}
+	var uncovered []string
+	out, err = exec.Command("go", "tool", "covdata", "func", "-i="+dir).Output()
+	if err == nil {
+		for _, ln := range strings.Split(string(out), "\n") {
+			fs := strings.Fields(ln)
+			if len(fs) == 3 && strings.HasPrefix(fs[0], "github.com/go-openapi/analysis") && fs[2] == "0.0%" && !strings.Contains(fs[0], "verifhook") {
+				f := strings.TrimPrefix(fs[0], "github.com/go-openapi/analysis/")
+				if i := strings.Index(f, ":"); i > 0 {
+					f = f[:i]
+				}
+				uncovered = append(uncovered, f+":"+fs[1])
+			}
+		}
+	}
+	sort.Strings(uncovered)
+	return pct, uncovered
 }
